@@ -407,6 +407,61 @@ def build(run):
     run.function(estimate_total_polynomial_degree)
     run.add("estimate_total_polynomial_degree/templates", whole, kind="bounded")
 
+    # ---- the three entry points: an expression, an Integral, a whole Form (the estimate of a Form covers every one of its integrals)
+    def entry_points():
+        from ufv import symx
+        n = 0
+        holder = {}
+        mx = lambda a, b: z3.If(a >= b, a, b)  # noqa: E731
+
+        def build(d0, d1):
+            V0 = ufl.FunctionSpace(tri, elem(d0))
+            V1 = ufl.FunctionSpace(tri, elem(d1, (2,)))
+            f, g = ufl.Coefficient(V0), ufl.Coefficient(V1)
+            t0, t1 = term(d0), term(d1)
+            F = f * ufl.Measure("dx", domain=tri) + g[0] * g[1] * ufl.Measure("ds", domain=tri) + f * f * f * ufl.Measure("dx", domain=tri, subdomain_id=1)
+            return F, [t0, 2 * t1, 3 * t0]
+        for what in ("form", "integral 0", "integral 1", "integral 2", "form with one integral", "reversed form"):
+            def mk():
+                d = [SymInt("d0"), SymInt("d1")]
+                holder["d"] = d
+                return d
+
+            def fn(d0, d1, what=what):
+                with shadow_int(ED):
+                    F, degs = build(d0, d1)
+                    if what == "form":
+                        x, spec = F, mx(mx(degs[0], degs[1]), degs[2])
+                    elif what == "reversed form":
+                        x, spec = ufl.Form(list(reversed(F.integrals()))), mx(mx(degs[0], degs[1]), degs[2])
+                    elif what == "form with one integral":
+                        x, spec = ufl.Form([it_ for it_ in F.integrals() if it_.subdomain_id() == 1]), degs[2]
+                    else:
+                        k_ = int(what.split()[1])
+                        x = F.integrals()[k_]         # Form sorts its integrals: identify the integrand by its measure
+                        spec = degs[1] if x.integral_type() == "exterior_facet" else (degs[2] if x.subdomain_id() == 1 else degs[0])
+                    holder["spec"] = spec
+                    symx.ALLOW_TERM_HASH[0] = True
+                    try:
+                        return estimate_total_polynomial_degree(x)
+                    finally:
+                        symx.ALLOW_TERM_HASH[0] = False
+            paths, complete = explore(fn, mk)
+            if not complete:
+                return undecided("entry points: path cap")
+            for p in paths:
+                if p.kind == "exc":
+                    return undecided(f"entry points[{what}]: exception {type(p.value).__name__}: {p.value}")
+                st, model = prove(p.pc + nn(*holder["d"]), term(p.value) >= holder["spec"])
+                n += 1
+                if st == "refuted":
+                    return violated(f"estimate_total_polynomial_degree({what}) = {p.value!r} is below the true degree {holder['spec']} at {model}",
+                                    replay={"model": model, "entry": what}, reproduced=True, backend="z3")
+                if st == "unknown":
+                    return undecided("entry points: z3 unknown")
+        return proved("z3(path-exhaustive)", vcs=n, sample="estimate(Form) >= degree of every integrand, estimate(Integral) >= its integrand, for all element degrees")
+    run.add("estimate_total_polynomial_degree/entry-points(Form, Integral)", entry_points, kind="values")
+
     # ---- attach_estimated_degrees: what compute_form_data attaches to each integral is an estimate of THAT integrand, whatever
     # metadata the integral already carries (forms are re-processed after replace()/reconstruct(), so an annotation may be stale)
     def attach():
